@@ -127,6 +127,11 @@ func resolvePath(root, pth string) (string, error) {
 	if final != path.Clean(basename) {
 		return "", fmt.Errorf("path attempts to redirect through symlinks")
 	}
+	// The last component must not be a symlink either: os.Create and os.MkdirAll follow it, so an
+	// archive (or a pre-populated output directory) could redirect a later entry of the same name.
+	if fi, err := os.Lstat(joined); err == nil && fi.Mode()&os.ModeSymlink != 0 {
+		return "", fmt.Errorf("path attempts to redirect through symlinks")
+	}
 	return joined, nil
 }
 
